@@ -96,6 +96,36 @@ func (f *fn) block(stmts []ast.Stmt, ind int, fin finFn) {
 		case *ast.AssignStmt:
 			// `v, err := recv.M(args)` followed by `if err != nil { return err }`
 			if len(s.Rhs) == 1 {
+				if call, ok := s.Rhs[0].(*ast.CallExpr); ok && fullName(f.calleeOf(call)) == "crypto/cipher.NewCBCDecrypter" {
+					if len(rest) == 0 {
+						f.fail(s, "cipher.NewCBCDecrypter not followed at once by CryptBlocks")
+					}
+					f.cbcDecryptInPlace(s, call, rest[0])
+					i++
+					continue
+				}
+				if call, ok := s.Rhs[0].(*ast.CallExpr); ok && !f.isMethodCallee(call) {
+					if callee, en, ok := f.errCallee(call); ok {
+						errId, _ := s.Lhs[len(s.Lhs)-1].(*ast.Ident)
+						var errObj types.Object
+						if errId != nil {
+							errObj = f.info.Defs[errId]
+							if errObj == nil {
+								errObj = f.info.Uses[errId]
+							}
+						}
+						if len(rest) == 0 {
+							f.fail(s, "call of %s whose error is not propagated at once", callee.Name())
+						}
+						next, ok := rest[0].(*ast.IfStmt)
+						if !ok || next.Init != nil || next.Else != nil || !f.isErrNotNil(next.Cond, errObj) || !f.isPropagate(next.Body, errObj) {
+							f.fail(s, "call of %s whose error is not propagated at once", callee.Name())
+						}
+						f.errCall(call, callee, en, s.Lhs[:len(s.Lhs)-1])
+						i++
+						continue
+					}
+				}
 				if call, ok := s.Rhs[0].(*ast.CallExpr); ok && f.isMethodCallee(call) {
 					errId, _ := s.Lhs[len(s.Lhs)-1].(*ast.Ident)
 					var errObj types.Object
@@ -131,7 +161,7 @@ func (f *fn) block(stmts []ast.Stmt, ind int, fin finFn) {
 		case *ast.ForStmt:
 			f.forStmt(s, ind)
 		case *ast.RangeStmt:
-			f.fail(s, "range loop")
+			f.rangeLoop(s, ind)
 		default:
 			f.fail(s, "statement of unsupported form")
 		}
@@ -235,9 +265,57 @@ func (f *fn) assign(s *ast.AssignStmt) {
 		f.setField(s, path, f.fieldValue(s, path[len(path)-1].Type(), rhs))
 		return
 	}
+	if call, ok := rhs.(*ast.CallExpr); ok {
+		if id, ok := call.Fun.(*ast.Ident); ok && id.Name == "append" && len(call.Args) > 0 {
+			if _, isBuiltin := f.info.Uses[id].(*types.Builtin); isBuiltin && types.ExprString(lhs) != types.ExprString(call.Args[0]) {
+				f.fail(s, "append whose result is not stored back into its first argument (two slices could share a backing array)")
+			}
+		}
+	}
 	if id, ok := lhs.(*ast.Ident); ok {
 		f.localAssign(s, id, s.Tok.String(), rhs)
 		return
+	}
+	if root, path, ok := f.localFieldPath(lhs); ok && len(path) > 0 {
+		if s.Tok != token.ASSIGN {
+			f.fail(s, "compound assignment to a field")
+		}
+		rv := f.vars[root]
+		val := f.fieldValue(s, path[len(path)-1].Type(), rhs)
+		lp := f.leanPathFrom(s, rv.T, path)
+		f.w("let %s := %s", rv.S, nestedUpdate(rv.S, lp, val))
+		return
+	}
+	// arr[c] = v on a local byte array (constant index inside the array); s[i] = v on a local list
+	if ix, ok := lhs.(*ast.IndexExpr); ok && s.Tok == token.ASSIGN {
+		if id, ok := ix.X.(*ast.Ident); ok {
+			obj := f.info.Uses[id]
+			if cur, ok := f.vars[obj]; ok {
+				if _, isArr := obj.Type().Underlying().(*types.Array); isArr && cur.K == KBytes && cur.N >= 0 {
+					c, isC := constInt(f.info, ix.Index)
+					if !isC || c < 0 || int(c) >= cur.N {
+						f.fail(s, "array index that is not a constant within the array")
+					}
+					v := f.expr(rhs)
+					if v.K != KU8 {
+						f.fail(s, "array element of unsupported kind")
+					}
+					f.w("let %s : Bytes := %s.set %d %s", cur.S, paren(cur.S), c, paren(v.S))
+					return
+				}
+				if cur.K == KList && cur.E != KStruct {
+					i, _ := f.natIndex(ix.Index)
+					v := f.expr(rhs)
+					if !(v.K == cur.E || (cur.E == KInt && v.K == KNat)) {
+						f.fail(s, "element of kind %d stored into a slice of another kind", v.K)
+					}
+					f.w("let %s ← %s", cur.S, f.lift(fmt.Sprintf("GoDec.setAt %s %s %s", paren(cur.S), paren(i), paren(f.coerce(s, v, cur.E)))))
+					cur.N = -1
+					f.vars[obj] = cur
+					return
+				}
+			}
+		}
 	}
 	// x.F[i] = v on a slice of uint16 / int64: an index beyond len(x.F) is a panic
 	if ix, ok := lhs.(*ast.IndexExpr); ok && s.Tok == token.ASSIGN {
@@ -250,7 +328,7 @@ func (f *fn) assign(s *ast.AssignStmt) {
 					f.fail(s, "element of kind %d stored into a slice of another kind", v.K)
 				}
 				t := f.tmp()
-				f.w("let %s ← GoDec.setAt %s %s %s", t, paren(cur.S), paren(i), paren(f.coerce(s, v, ek)))
+				f.w("let %s ← %s", t, f.lift(fmt.Sprintf("GoDec.setAt %s %s %s", paren(cur.S), paren(i), paren(f.coerce(s, v, ek)))))
 				f.setField(s, path, t)
 				return
 			}
@@ -285,7 +363,7 @@ func (f *fn) fieldValue(n ast.Node, t types.Type, rhs ast.Expr) string {
 	}
 	v := f.expr(rhs)
 	switch lt {
-	case "UInt8", "UInt16", "UInt32", "Bool":
+	case "UInt8", "UInt16", "UInt32", "Bool", "Int8", "Int16", "Int32":
 		if leanKindType(v.K) == lt {
 			if v.K == KBool {
 				return boolTerm(v)
@@ -299,6 +377,11 @@ func (f *fn) fieldValue(n ast.Node, t types.Type, rhs ast.Expr) string {
 	case "Bytes":
 		switch v.K {
 		case KSlice:
+			if v.Al != nil {
+				f.aliases = append(f.aliases, *v.Al)
+			} else {
+				f.aliases = append(f.aliases, storedAlias{nil, ""})
+			}
 			return v.S + ".vis"
 		case KBytes:
 			if at, ok := t.Underlying().(*types.Array); ok && int(at.Len()) != v.N {
@@ -371,10 +454,24 @@ func (f *fn) localAssign(n ast.Node, id *ast.Ident, tok string, rhs ast.Expr) {
 		v = f.binop(n, op, cur, b, ytv)
 	}
 	if v.K == KStruct {
-		f.fail(n, "struct value stored into a variable")
+		if !plainStruct(v.T) {
+			f.fail(n, "struct value stored into a variable")
+		}
 	}
 	// the declared type decides between the fixed-width kinds and int; an int variable is ℕ or ℤ by its value
-	if dk, _, ok := f.kindOfType(obj.Type()); !ok || (dk != v.K && !(dk == KInt && v.K == KNat)) {
+	tmpl, ok := f.typeTemplate(obj.Type())
+	if !ok {
+		f.fail(n, "variable %s of type %s", id.Name, obj.Type())
+	}
+	switch {
+	case tmpl.K == KEnum && v.K == KEnum && v.En != nil:
+	case tmpl.K == KList || tmpl.K == KStruct:
+		if !sameType(tmpl, v) {
+			f.fail(n, "variable %s of type %s", id.Name, obj.Type())
+		}
+	case tmpl.K == KSlice && v.K == KBytes: // a byte slice from an external call: kept as the bytes it denotes
+	case tmpl.K == v.K, tmpl.K == KInt && v.K == KNat:
+	default:
 		f.fail(n, "variable %s of type %s", id.Name, obj.Type())
 	}
 	name := f.nameOf(obj)
@@ -382,13 +479,30 @@ func (f *fn) localAssign(n ast.Node, id *ast.Ident, tok string, rhs ast.Expr) {
 	if v.K == KBool {
 		s = boolTerm(v)
 	}
-	f.w("let %s : %s := %s", name, leanKindType(v.K), s)
-	f.vars[obj] = Val{S: name, K: v.K, N: v.N}
+	f.w("let %s : %s := %s", name, v.leanType(), s)
+	nv := v
+	nv.S, nv.Prop, nv.IsConst = name, false, false
+	if v.K == KSlice && v.Al == nil {
+		// a second name for the same slice: remember what it aliases
+		if rid, ok := rhs.(*ast.Ident); ok {
+			nv.Al = &storedAlias{f.info.Uses[rid], ""}
+		}
+	}
+	f.vars[obj] = nv
 }
 
 // ---- return ---------------------------------------------------------------------------------------------------
 
 func (f *fn) okValue(extra []string) string {
+	if f.noRecv {
+		switch len(extra) {
+		case 0:
+			return "pure ()"
+		case 1:
+			return "pure " + paren(extra[0])
+		}
+		return "pure (" + strings.Join(extra, ", ") + ")"
+	}
 	if len(extra) == 0 {
 		return "pure r"
 	}
@@ -413,7 +527,7 @@ func (f *fn) ret(s *ast.ReturnStmt) {
 	}
 	last := s.Results[len(s.Results)-1]
 	if f.isErrorCtor(last) {
-		f.w("R.err")
+		f.w("%s.err", f.M())
 		return
 	}
 	if isNilIdent(last) {
@@ -423,7 +537,11 @@ func (f *fn) ret(s *ast.ReturnStmt) {
 		var extra []string
 		for i, e := range s.Results[:len(s.Results)-1] {
 			v := f.expr(e)
-			extra = append(extra, f.coerce(e, v, f.results[i]))
+			if f.resT != nil {
+				extra = append(extra, f.coerceTo(e, v, &f.resT[i]))
+			} else {
+				extra = append(extra, f.coerce(e, v, f.results[i]))
+			}
 		}
 		f.w("%s", f.okValue(extra))
 		return
@@ -437,147 +555,14 @@ func (f *fn) ret(s *ast.ReturnStmt) {
 		if len(res) != 0 || len(recvPath) != 0 {
 			f.fail(s, "tail call of %s", name)
 		}
-		f.w("%s r %s", name, strings.Join(args, " "))
+		term := fmt.Sprintf("%s r %s", name, strings.Join(args, " "))
+		if f.g.defMonad[name] == "RF" {
+			f.requireFuel()
+		} else if f.fuel {
+			term = f.lift(term)
+		}
+		f.w("%s", term)
 		return
 	}
 	f.fail(s, "return of %s", types.ExprString(last))
-}
-
-// forStmt: `for i := 0; i < N; i++ { body }` with N a constant or a local variable the body does not assign, i not
-// assigned by the body, no break / continue / successful return: exactly the indices 0 … N-1 in order, i.e. a monadic
-// left fold over `List.range N` of the receiver and the outer variables the body assigns
-func (f *fn) forStmt(s *ast.ForStmt, ind int) {
-	f.ind = ind
-	init, ok := s.Init.(*ast.AssignStmt)
-	if !ok || init.Tok != token.DEFINE || len(init.Lhs) != 1 || len(init.Rhs) != 1 {
-		f.fail(s, "loop whose initialiser is not `i := 0`")
-	}
-	iv, ok := init.Lhs[0].(*ast.Ident)
-	if c, isC := constInt(f.info, init.Rhs[0]); !ok || !isC || c != 0 {
-		f.fail(s, "loop whose initialiser is not `i := 0`")
-	}
-	iObj := f.info.Defs[iv]
-	if b, ok := iObj.Type().Underlying().(*types.Basic); !ok || b.Kind() != types.Int {
-		f.fail(s, "loop variable that is not an int")
-	}
-	cond, ok := s.Cond.(*ast.BinaryExpr)
-	if !ok || cond.Op != token.LSS {
-		f.fail(s, "loop whose condition is not `i < N`")
-	}
-	if id, ok := cond.X.(*ast.Ident); !ok || f.info.Uses[id] != iObj {
-		f.fail(s, "loop whose condition is not `i < N`")
-	}
-	post, ok := s.Post.(*ast.IncDecStmt)
-	if !ok || post.Tok != token.INC {
-		f.fail(s, "loop whose post statement is not `i++`")
-	}
-	if id, ok := post.X.(*ast.Ident); !ok || f.info.Uses[id] != iObj {
-		f.fail(s, "loop whose post statement is not `i++`")
-	}
-	var boundObj types.Object
-	if _, isC := constInt(f.info, cond.Y); !isC {
-		id, ok := cond.Y.(*ast.Ident)
-		if !ok {
-			f.fail(s, "loop bound that is neither a constant nor a local variable")
-		}
-		boundObj = f.info.Uses[id]
-	}
-	bound := f.expr(cond.Y)
-	if bound.K != KNat {
-		f.fail(s, "loop bound that may be negative")
-	}
-	vars := f.assignedOuter(s, s.Body.List)
-	for _, o := range vars {
-		if o == boundObj {
-			f.fail(s, "loop body assigns the loop bound")
-		}
-	}
-	ast.Inspect(s.Body, func(n ast.Node) bool {
-		switch x := n.(type) {
-		case *ast.AssignStmt:
-			for _, l := range x.Lhs {
-				if id, ok := l.(*ast.Ident); ok && f.info.Uses[id] == iObj {
-					f.fail(s, "loop body assigns the loop variable")
-				}
-			}
-		case *ast.IncDecStmt:
-			if id, ok := x.X.(*ast.Ident); ok && f.info.Uses[id] == iObj {
-				f.fail(s, "loop body assigns the loop variable")
-			}
-		case *ast.UnaryExpr:
-			if x.Op == token.AND {
-				f.fail(s, "address taken inside a loop")
-			}
-		}
-		return true
-	})
-	iname := f.nameOf(iObj)
-	state := "r"
-	if len(vars) > 0 {
-		names := []string{"r"}
-		for _, o := range vars {
-			names = append(names, f.vars[o].S)
-		}
-		state = "(" + strings.Join(names, ", ") + ")"
-	}
-	f.ntmp++
-	st := fmt.Sprintf("s%d", f.ntmp)
-	savedVars := map[types.Object]Val{}
-	for k, v := range f.vars {
-		savedVars[k] = v
-	}
-	f.vars[iObj] = Val{S: iname, K: KNat, N: -1}
-	saved := f.lines
-	f.lines = nil
-	f.inJoin++
-	f.ind = ind + 2
-	if len(vars) > 0 {
-		f.w("let r := %s.1", st)
-		for i, o := range vars {
-			proj := st + ".2" + strings.Repeat(".2", i)
-			if i < len(vars)-1 {
-				proj += ".1"
-			}
-			f.w("let %s : %s := %s", f.vars[o].S, leanKindType(f.vars[o].K), proj)
-		}
-	}
-	f.block(s.Body.List, ind+2, func() { f.w("pure %s", state) })
-	f.inJoin--
-	body := f.lines
-	f.lines = saved
-	kindsAfter := map[types.Object]Kind{}
-	for _, o := range vars {
-		kindsAfter[o] = f.vars[o].K
-	}
-	f.vars = savedVars
-	for _, o := range vars {
-		if kindsAfter[o] != f.vars[o].K {
-			f.fail(s, "loop body changes the kind of variable %s", o.Name())
-		}
-	}
-	f.ind = ind
-	binder := "r"
-	if len(vars) > 0 {
-		binder = st
-	}
-	res := "r"
-	if len(vars) > 0 {
-		f.ntmp++
-		res = fmt.Sprintf("j%d", f.ntmp)
-	}
-	f.w("let %s ← List.foldlM (fun %s %s => (do", res, binder, iname)
-	f.lines = append(f.lines, body[:len(body)-1]...)
-	f.lines = append(f.lines, body[len(body)-1]+")) "+state+" (List.range "+paren(bound.S)+")")
-	if len(vars) > 0 {
-		f.w("let r := %s.1", res)
-		for i, o := range vars {
-			proj := res + ".2" + strings.Repeat(".2", i)
-			if i < len(vars)-1 {
-				proj += ".1"
-			}
-			v := f.vars[o]
-			f.w("let %s : %s := %s", v.S, leanKindType(v.K), proj)
-			f.vars[o] = Val{S: v.S, K: v.K, N: -1}
-		}
-	}
 }
